@@ -76,11 +76,24 @@ def check(run):
                 n = rng.choice([1, 2, 3])
                 seq.append(f"lock poseidon {(le(n, 8) + b''.join(le(rand_fr(rng), 32) for _ in range(n))).hex()}")
             seq += ["lock root", "lock leaves_set", f"lock get_leaf {hex(rng.choice([0, 1, 2, 3, 5, (1 << 20) - 1, 1 << 20]))}"]
+            if rng.random() < 0.35:
+                seq.append("lock meta_get")          # metadata is state too: observed after any call, not only after meta_set
             if rng.random() < 0.2:
                 seq.append(f"lock get_proof {hex(rng.choice([0, 3, (1 << 20) - 1, 1 << 20]))}")
             if rng.random() < 0.15:
                 seq.append(f"lock seeded_key_gen {hx(bytes(rng.getrandbits(8) for _ in range(rng.choice([0, 3, 40]))))}")
                 seq.append(f"lock seeded_ext_key_gen {hx(bytes(rng.getrandbits(8) for _ in range(rng.choice([0, 3, 40]))))}")
+        seqs.append(seq)
+    # directed: calls that REPLACE the tree object (init_tree_with_leaves, set_tree) after state that lives beside the leaves
+    # (metadata) was written, on instances with and without leaves
+    for k in range(4 if quick else 30):
+        seq = ["lock new"]
+        if k % 2:
+            seq.append(f"lock set_next {hex(treegen.val(rng))}")
+        seq += ["lock meta_set " + bytes(rng.getrandbits(8) for _ in range(rng.choice([1, 24]))).hex(), "lock meta_get",
+                rng.choice(["lock init_leaves " + treegen.vlist([treegen.val(rng) for _ in range(rng.choice([0, 1, 3]))]), "lock set_tree 20"]),
+                "lock meta_get", "lock root", "lock leaves_set", "lock get_leaf 0x0",
+                f"lock set_leaves_from 0x1 {treegen.vlist([treegen.val(rng) for _ in range(2)])}", "lock meta_get", "lock root", "lock leaves_set"]
         seqs.append(seq)
     clean = [[l for l in s if not pm_defect(l)] for s in seqs]
     run.differential("ffi-lockstep-tree", clean, canon=canon)
